@@ -56,22 +56,3 @@ Qed.
 Lemma sumf_ge f l i t : nth_error l i = Some t -> f t <= sumf f l.
 Proof. revert i; induction l as [|h l IH]; intros [|i] H; simpl in *; try discriminate. inversion H; subst; lia. specialize (IH _ H); lia. Qed.
 
-(* ------------------------------------------------------------------ FIFO: holds for ANY programs *)
-Lemma exec_fifo P i c s s' : exec P i c s = Some s' ->
-  delivered s ++ q s = pushed s -> delivered s' ++ q s' = pushed s'.
-Proof.
-  unfold exec. intros H F.
-  repeat match type of H with
-         | context [match ?x with _ => _ end] => destruct x eqn:?; try discriminate
-         | context [if ?x then _ else _] => destruct x eqn:?; try discriminate
-         end;
-  inversion H; subst; clear H; cbn [q delivered pushed]; auto;
-  try (rewrite app_assoc, F; reflexivity);
-  try (match goal with E : q s = _ :: _ |- _ => rewrite E in F end; rewrite <- app_assoc; exact F);
-  try (rewrite <- F, <- !app_assoc; reflexivity).
-Qed.
-
-Theorem reach_fifo P n sc s : reach P (init n sc) s -> delivered s ++ q s = pushed s.
-Proof.
-  induction 1 as [|s s' R IH [i [c E]]]; [reflexivity|]. eapply exec_fifo; eauto.
-Qed.
